@@ -243,23 +243,9 @@ func c05Check(c *hx.Ctx, k int, cert *x509.Certificate, ty c05Type, content []by
 		bad("reference verifier", "contentType attribute differs from the content type", nil)
 		return
 	}
-	// DER also constrains the value forms: a signing time is UTCTime "YYMMDDHHMMSSZ" (or
-	// GeneralizedTime "YYYYMMDDHHMMSSZ"): seconds present, no fraction, no offset but Z
-	for _, a := range g.Attrs {
-		if bytes.Equal(a.OID, refp7.OIDSigningTime) {
-			for _, v := range a.Values {
-				okForm := (v.Tag == 0x17 && len(v.Val) == 13 || v.Tag == 0x18 && len(v.Val) == 15) && v.Val[len(v.Val)-1] == 'Z'
-				for _, ch := range v.Val[:max(len(v.Val)-1, 0)] {
-					if ch < '0' || ch > '9' {
-						okForm = false
-					}
-				}
-				if !okForm {
-					bad("reference verifier", "signingTime is not in the DER form (UTC, seconds, 'Z')", map[string]any{"value": string(v.Val)})
-					return
-				}
-			}
-		}
+	if ok, val := signingTimeIsDER(g); !ok {
+		bad("reference verifier", "signingTime is not in the DER form (UTC, seconds, 'Z')", map[string]any{"value": val})
+		return
 	}
 	sum := sha256.Sum256(content)
 	if !bytes.Equal(g.MessageDigest(), sum[:]) {
